@@ -188,7 +188,22 @@ func (r *realiser) fill(fv reflect.Value, fpath, key, owner, fname string) {
 		if s, ok := r.s(fpath + "?s"); ok {
 			fv.SetString(s)
 		} else if owner == "Ident" && fname == "Name" {
-			fv.SetString(r.freshName())
+			// an identifier go/types resolves to an imported package is spelled like that package
+			// (the file then imports it: the name is one of the known standard packages)
+			node := strings.TrimSuffix(fpath, ".Name")
+			named := false
+			for _, tbl := range []string{"Defs", "Uses"} {
+				if pth, ok := r.s("info." + tbl + "[" + node + "].imported.path?s"); ok && pth != "" {
+					base := pth[strings.LastIndex(pth, "/")+1:]
+					if stdPkgs[base] == pth {
+						fv.SetString(base)
+						named = true
+					}
+				}
+			}
+			if !named {
+				fv.SetString(r.freshName())
+			}
 		} else if owner == "BasicLit" && fname == "Value" {
 			fv.SetString("") // fixed up after the kind is known
 		} else if owner == "Comment" && fname == "Text" {
@@ -303,6 +318,31 @@ func fixup(n ast.Node) {
 		case *ast.IndexExpr:
 			x.X = litIdent(x.X)
 		}
+		return true
+	})
+	// parameter lists: every field has a type; named and unnamed parameters are not mixed
+	ast.Inspect(n, func(x ast.Node) bool {
+		ft, ok := x.(*ast.FuncType)
+		if !ok || ft.Params == nil {
+			return true
+		}
+		anyNamed := false
+		for _, f := range ft.Params.List {
+			if f != nil && len(f.Names) > 0 {
+				anyNamed = true
+			}
+		}
+		var keep []*ast.Field
+		for _, f := range ft.Params.List {
+			if f == nil || (anyNamed && len(f.Names) == 0) {
+				continue
+			}
+			if f.Type == nil {
+				f.Type = &ast.Ident{Name: "int"}
+			}
+			keep = append(keep, f)
+		}
+		ft.Params.List = keep
 		return true
 	})
 	// functions whose body returns values get a matching result list
@@ -761,6 +801,29 @@ func realise(model map[string]interface{}, spec *lazySpecView, rootPath, categor
 	// string argument with formatting verbs (text that is harmless as code and
 	// revealing when it is mistaken for a format string)
 	var bodies []string
+	// variant: function literals without results get a named bool result, so that a
+	// bare `return` inside them stays legal where a value-returning function is expected
+	// (e.g. the less function of sort.Slice); tried first
+	named := false
+	ast.Inspect(node.(ast.Node), func(x ast.Node) bool {
+		if fl, ok := x.(*ast.FuncLit); ok && fl.Type != nil && fl.Type.Results == nil {
+			fl.Type.Results = &ast.FieldList{List: []*ast.Field{{Names: []*ast.Ident{{Name: "gsxr"}}, Type: &ast.Ident{Name: "bool"}}}}
+			named = true
+		}
+		return true
+	})
+	if named {
+		if s2, err := printNode(node); err == nil && s2 != "" {
+			bodies = append(bodies, contexts(category, s2)...)
+		}
+		ast.Inspect(node.(ast.Node), func(x ast.Node) bool {
+			if fl, ok := x.(*ast.FuncLit); ok && fl.Type != nil && fl.Type.Results != nil && len(fl.Type.Results.List) == 1 &&
+				len(fl.Type.Results.List[0].Names) == 1 && fl.Type.Results.List[0].Names[0].Name == "gsxr" {
+				fl.Type.Results = nil
+			}
+			return true
+		})
+	}
 	bodies = append(bodies, contexts(category, snippet)...)
 	padded := false
 	ast.Inspect(node.(ast.Node), func(x ast.Node) bool {
